@@ -1,6 +1,7 @@
 import PycsepVerif.Proto
 import PycsepVerif.Model.PoissonLL
 import PycsepVerif.Model.PoissonTest
+import PycsepVerif.Model.PoissonSession
 /-! driver ops of C05 (Float instance of Model/PoissonLL). Floats travel as IEEE-754 bit patterns.
     `c05_stat <0|1> <rates> <counts>`, `c05_test <L|CL|S|M> <data rows ;-separated> <count rows>`,
     `c05_sim <L|CL|S|M> <data rows> <simulated counts (1-D)>`, `c05_marg <data rows>`, `c05_cells <data rows> <count rows>` (poisson_spatial_likelihood, list of bit patterns),
@@ -53,7 +54,37 @@ def parseMode? : String → Option Mode
 
 def parseNat? (s : String) : Option Nat := s.toNat?
 
+/-- one op of a session: `N|rows|edges`, `S|k|bits`, `E|edges`, `M|c|e|mag`, `T|mode|k|c`, `O` -/
+def parseOp? (t : String) : Option (PoissonSession.Op Float) :=
+  match t.splitOn "|" with
+  | ["N", rows, edges] => do
+      let d ← parseList2? parseFloat? rows
+      let e ← parseList? parseRat? edges
+      some (.newForecast d e)
+  | ["S", k, c] => do some (.scale (← k.toNat?) (← parseFloat? c))
+  | ["E", edges] => do some (.setEdges (← parseList? parseRat? edges))
+  | ["M", c, e, m] => do some (.editMag (← c.toNat?) (← e.toNat?) (← parseRat? m))
+  | ["T", m, k, c] => do some (.test (← parseMode? m) (← k.toNat?) (← c.toNat?))
+  | ["O"] => some .otherEval
+  | _ => none
+
+/-- `cell:magnitude` -/
+def parseSessEv? (s : String) : Option (Nat × Rat) :=
+  match s.splitOn ":" with
+  | [c, m] => do some ((← c.toNat?), (← parseRat? m))
+  | _ => none
+
 def handle : List String → Option String
+  -- c05_session <ncell> <events cell:mag,…> <op> <op> … : two catalogs with these events (shared region / no region), a
+  --   history of ops; answers what every `T` step reports
+  | "c05_session" :: nc :: evs :: ops =>
+      some (match nc.toNat?, parseList? parseSessEv? evs, ops.mapM parseOp? with
+      | some nc, some evs, some ops =>
+        let s0 : PoissonSession.State Float := ⟨[], [], [⟨evs, .full⟩, ⟨evs, .none⟩]⟩
+        let outs := PoissonSession.runOps nc s0 ops
+        if outs.isEmpty then "-" else " ".intercalate (outs.map (fun o => match o with
+          | none => "undefined" | some v => showELL v))
+      | _, _, _ => "bad-op")
   | ["c05_stat", n, rs, cs] => some (match parseList? parseFloat? rs, parseList? parseNat? cs with
       | some rs, some cs =>
         if rs.length ≠ cs.length then "bad-op" else
